@@ -82,7 +82,12 @@ class AsyncWorker(base.Worker):
                 else:
                     self.log.debug("Ignoring EPIPE")
         except BaseException as e:
-            self.handle_error(req, client, addr, e)
+            if req is None and not isinstance(e, Exception):
+                # killed while waiting for a request (graceful timeout,
+                # quit): the client asked nothing and is owed no error page
+                self.log.debug("Closing idle connection. %r", e)
+            else:
+                self.handle_error(req, client, addr, e)
         finally:
             util.close(client)
 
